@@ -2,6 +2,8 @@
 // same line protocol the Lean model driver (`modeld`) speaks.
 mod common;
 mod base;
+mod conv;
+mod rich;
 
 fn main() {
     let args: Vec<String> = std::env::args().collect();
@@ -12,6 +14,7 @@ fn main() {
     let rest: Vec<String> = args[2..].to_vec();
     match args[1].as_str() {
         "base" => base::run(&rest),
+        "conv" => conv::run(&rest),
         other => {
             eprintln!("cvh: unknown sub-command {other}");
             std::process::exit(2);
